@@ -68,12 +68,17 @@ type Instance struct {
 }
 
 // NewInstance creates the scenario directory and the sink; Start brings the application up.
-func NewInstance(mod func(*app.Options)) (*Instance, error) {
+func NewInstance(mod func(*app.Options)) (*Instance, error) { return NewInstanceWithSink(mod, nil) }
+
+// NewInstanceWithSink: several instances (a cluster) can notify the same receivers.
+func NewInstanceWithSink(mod func(*app.Options), sink *Sink) (*Instance, error) {
 	dir, err := os.MkdirTemp("", "appsys-")
 	if err != nil {
 		return nil, err
 	}
-	sink, err := NewSink()
+	if sink == nil {
+		sink, err = NewSink()
+	}
 	if err != nil {
 		os.RemoveAll(dir)
 		return nil, err
@@ -335,6 +340,39 @@ func (in *Instance) GetSilences() ([]SilenceOut, error) {
 	}
 	sort.Slice(out, func(i, j int) bool { return out[i].ID < out[j].ID })
 	return out, nil
+}
+
+// ClusterStatus is the cluster block of GET /api/v2/status.
+type ClusterStatus struct {
+	Name   string `json:"name"`
+	Status string `json:"status"`
+	Peers  []struct {
+		Name    string `json:"name"`
+		Address string `json:"address"`
+	} `json:"peers"`
+}
+
+func (c ClusterStatus) PeerNames() []string {
+	out := []string{}
+	for _, p := range c.Peers {
+		out = append(out, p.Name)
+	}
+	sort.Strings(out)
+	return out
+}
+
+func (in *Instance) ClusterStatus() (ClusterStatus, error) {
+	var r struct {
+		Cluster ClusterStatus `json:"cluster"`
+	}
+	code, body, err := in.do("GET", "/api/v2/status", nil)
+	if err != nil {
+		return r.Cluster, err
+	}
+	if code != 200 {
+		return r.Cluster, fmt.Errorf("GET status: %d", code)
+	}
+	return r.Cluster, json.Unmarshal(body, &r)
 }
 
 // StatusConfig returns config.original of GET /api/v2/status.
